@@ -98,7 +98,12 @@ class Harness:
     def _on_msg(self, msg):
         self.msg_idx += 1
         self.sub = 0
-        self.log.append(("msg", msg))
+        # third field: the message's content at the moment it was handed to the engine (the engine may not edit it)
+        try:
+            snap = (msg.command, msg.obj, tuple(msg.args), copy.deepcopy(dict(msg.kwargs)), msg.run)
+        except Exception:  # noqa: BLE001
+            snap = (msg.command, msg.obj, tuple(msg.args), dict(msg.kwargs), msg.run)
+        self.log.append(("msg", msg, snap))
 
     def _on_state(self, new, old):
         self.log.append(("state", str(new), str(old)))
